@@ -99,6 +99,16 @@ def _short_after_declaration():
             e1 = len(decl) + len(ta)
             exp = [(e1, X.view_of_desc(a), a), (e1 + len(decl) + len(tb), X.view_of_desc(b), b)]
             out.append((text, exp, "short-after-residue"))
+    # the shortest messages there are, alone in the buffer (after everything before them has been consumed) and last in
+    # the stream: nothing that follows could push them out
+    msg, ping = ("message", (), None, ()), ("pingRequest", (("uid", "1"),), None, ())
+    gp = ("getProperties", (("version", "1.7"),), None, ())
+    for seq in ((msg,), (gp, msg), (msg, msg), (ping, msg), (msg, gp)):
+        text, exp = "", []
+        for d in seq:
+            text += G.serialise(d, G.Spelling())
+            exp.append((len(text), X.view_of_desc(d), d))
+        out.append((text, exp, "shortest-alone"))
     return out
 
 
@@ -201,7 +211,7 @@ def run_shard(shard):
             stats["deliv"] += 1
         return base(i, nd, k, delivered, buf, exc)
 
-    r = BG.explore(text, T, chk, max_hangs=2)
+    r = BG.explore(text, T, chk, max_hangs=2, double_append="both" if tier == "thorough" else "last")
     res["states"] = r["states"]
     res["transitions"] = r["transitions"]
     res["graphs"] = 1
@@ -218,7 +228,7 @@ def run_shard(shard):
             sig[key] = {
                 "clause": clause,
                 "disc": disc,
-                "what": "stream %r pieces %r: %s" % (label, [len(p) for p in pieces], what),
+                "what": "stream %r pieces %r: %s" % (label, [len(p) if isinstance(p, str) else "append-only:%d" % len(p[1]) for p in pieces], what),
                 "count": 1,
                 "replay": {"stream": text, "T": T, "tname": tname, "pieces": pieces, "expected": [(e, v) for e, v, d in exp]},
             }
@@ -569,9 +579,16 @@ def replay(rep):
     i = 0
     nd = 0
     b = BG.make_buffer(rep["T"])
+    pending = ""
     for p in rep["pieces"]:
+        if isinstance(p, (list, tuple)):
+            b.append(p[1])  # handed over without a process() call of its own
+            pending = p[1]
+            continue
         d = []
         exc = BG.guarded_process(b, p, d)
+        p = pending + p
+        pending = ""
         fails = chk(i, nd, len(p), d, b, exc)
         for c, dd, w in fails:
             out.append({"clause": c, "disc": dd, "what": w})
